@@ -31,6 +31,8 @@ public:
     bool open(OpenMode m) override { return f->srcOpen ? false : QIODevice::open(m); }
     qint64 bytesAvailable() const override { return buf.size() + QIODevice::bytesAvailable(); }
     void arrive(const QByteArray &b) { if (!isOpen()) return; buf.append(b); Q_EMIT readyRead(); }
+    // data that reaches the device's buffer without a readyRead() of its own (e.g. together with the end of the stream)
+    void arriveQuiet(const QByteArray &b) { if (!isOpen()) return; buf.append(b); }
     void eof() { Q_EMIT readChannelFinished(); }
 protected:
     qint64 readData(char *d, qint64 n) override { qint64 k = qMin<qint64>(n, buf.size()); if (k > 0) { memcpy(d, buf.constData(), k); buf.remove(0, k); } return k; }
@@ -68,11 +70,12 @@ void runCopier(const Scn &scn, Out &out)
     Faults f;
     QByteArray content; bool seq = false; qint64 block = 65536; bool hasRange = false; qint64 rf = 0, rt = -1;
     QStringList events;
-    bool dbuf = false;
+    bool dbuf = false; qint64 prepos = -1;
     foreach (const QString &t, scn.toks) {
         QStringList p = t.split(':');
         if (p[0] == "src") content = unhx(p[1]);
         else if (p[0] == "dbuf") dbuf = true;
+        else if (p[0] == "prepos") prepos = p[1].toLongLong();
         else if (p[0] == "seq") seq = true;
         else if (p[0] == "block") block = p[1].toLongLong();
         else if (p[0] == "range") { hasRange = true; rf = p[1].toLongLong(); rt = p[2].toLongLong(); }
@@ -84,6 +87,10 @@ void runCopier(const Scn &scn, Out &out)
     }
     MemSrc *mem = nullptr; SeqSrc *ss = nullptr; QIODevice *src;
     if (seq) { ss = new SeqSrc(&f); src = ss; } else { mem = new MemSrc(&f); mem->setData(content); src = mem; }
+    // the application has already read from the random-access source: it is open and stands at `prepos` when the
+    // scenario begins (QBuffer::seek, not the fault-injecting override; a read-only QBuffer refuses a position
+    // beyond its size and stays at 0)
+    if (mem && prepos >= 0 && mem->open(QIODevice::ReadOnly)) mem->QBuffer::seek(prepos);
     LogDest *dst = new LogDest(&f, obs);
     dst->buffered = dbuf;
     QIODeviceCopier *copier = new QIODeviceCopier(src, dst);
@@ -102,6 +109,7 @@ void runCopier(const Scn &scn, Out &out)
         else if (p[0] == "turn") QCoreApplication::processEvents();
         else if (p[0] == "stop") copier->stop();
         else if (p[0] == "arrive") { if (ss) ss->arrive(unhx(p[1])); }
+        else if (p[0] == "arriveq") { if (ss) ss->arriveQuiet(unhx(p[1])); }
         else if (p[0] == "eof") { if (ss) ss->eof(); }
     }
     out.obs << "end";
